@@ -68,11 +68,15 @@ template <class A, class B> int n_(std::pair<A, B>*, rank<9>) { return std::max(
 template <class A, class B> std::pair<A, B> get_(std::pair<A, B>*, int k, rank<9>) { return std::make_pair(sample<A>(k), sample<B>(k + 1)); }
 // sequence containers: lengths 4,0,1,6,8,9,3,7 (4/8: word-aligned blobs; 6: ND option payload unit; 9 crosses the 8-byte small-buffer of PDUOption;
 // 7 = 7 mod 8: the one residue for which an IPv6 extension header's padded size and its data size give different 8-byte unit counts)
-template <class T> auto n_(T*, rank<5>) -> decltype(std::declval<T>().push_back(std::declval<typename T::value_type>()), int()) { return 8; }
+// byte blobs get a ninth sample of 300 bytes where the caller says the format's length fields are 16 bits wide (large_blobs(): DHCPv6, PPPoE;
+// the high byte must be written too) - formats with 8-bit lengths cannot represent such an argument
+inline bool& large_blobs() { static bool b = false; return b; }
+template <class T> auto n_(T*, rank<5>) -> decltype(std::declval<T>().push_back(std::declval<typename T::value_type>()), int()) { return (large_blobs() && std::is_same<typename T::value_type, uint8_t>::value) ? 9 : 8; }
 template <class T> auto get_(T*, int k, rank<5>) -> decltype(std::declval<T>().push_back(std::declval<typename T::value_type>()), T()) {
-    static const int len[8] = {4, 0, 1, 6, 8, 9, 3, 7};
+    static const int len[9] = {4, 0, 1, 6, 8, 9, 3, 7, 300};
+    const int nl = (large_blobs() && std::is_same<typename T::value_type, uint8_t>::value) ? 9 : 8;
     T out;
-    for (int i = 0; i < len[k % 8]; ++i) out.push_back(sample<typename T::value_type>(i + k));
+    for (int i = 0; i < len[k % nl]; ++i) out.push_back(sample<typename T::value_type>(i + k));
     return out;
 }
 // ---- generated aggregates
